@@ -924,3 +924,51 @@ Proof.
   - apply lookup_remove_eq. assumption.
   - intros p Hp. apply lookup_remove_neq. assumption.
 Qed.
+
+(* ---------- namespace life cycle ---------- *)
+
+(* when the worker handles the task of a namespace that lost its label, the only configured objects of
+   that namespace that survive are those that are no longer in the informer store *)
+Lemma ns_cleanup_leaves_only_vanished ns st :
+  mem_s ns (n_labelled st) = false -> mem_s ns (n_watched st) = true ->
+  forall c, In c (n_cfg (nsync (TNs ns) st)) -> o_ns c = ns ->
+    existsb (is_obj (o_kind c) (o_ns c) (o_name c)) (n_store st) = false.
+Proof.
+  intros Hl Hw c Hc Hns. subst ns. unfold nsync in Hc. rewrite Hl, Hw in Hc. cbn in Hc.
+  apply filter_In in Hc. destruct Hc as [_ Hc]. rewrite String.eqb_refl in Hc. cbn in Hc.
+  apply negb_true_iff in Hc. exact Hc.
+Qed.
+
+(* PROVED PART: if every configured object of the namespace is still in the store when the namespace task
+   is handled (no deletion queued behind it), nothing of the namespace stays configured, and the namespace
+   is no longer watched. *)
+Theorem ns_cleanup_complete_partial ns st :
+  mem_s ns (n_labelled st) = false -> mem_s ns (n_watched st) = true ->
+  (forall c, In c (n_cfg st) -> o_ns c = ns -> existsb (is_obj (o_kind c) (o_ns c) (o_name c)) (n_store st) = true) ->
+  (forall c, In c (n_cfg (nsync (TNs ns) st)) -> o_ns c <> ns) /\
+  mem_s ns (n_watched (nsync (TNs ns) st)) = false.
+Proof.
+  intros Hl Hw Hall. split.
+  - intros c Hc Hns. pose proof (ns_cleanup_leaves_only_vanished ns st Hl Hw c Hc Hns) as Hv.
+    assert (Hin : In c (n_cfg st)).
+    { unfold nsync in Hc. rewrite Hl, Hw in Hc. cbn in Hc. apply filter_In in Hc. tauto. }
+    rewrite (Hall c Hin Hns) in Hv. discriminate.
+  - unfold nsync. rewrite Hl, Hw. cbn. unfold mem_s, drop_s.
+    destruct (existsb (String.eqb ns) (filter (fun y => negb (String.eqb ns y)) (n_watched st))) eqn:E; [|reflexivity].
+    apply existsb_exists in E. destruct E as (y & Hy & Ey). apply filter_In in Hy. destruct Hy as [_ Hy].
+    rewrite Ey in Hy. discriminate.
+Qed.
+
+(* REFUTED (F96): a served object deleted while the task of its unlabelled namespace is still queued stays
+   configured for ever: the clean-up does not find it in the store, and its own task is ignored because the
+   namespace is no longer watched (harness class nsl-delete-behind). *)
+Lemma ns_delete_behind_refuted :
+  exists evs o,
+    n_cfg (nrun evs (nstate0 ["apps"])) = [o] /\ n_store (nrun evs (nstate0 ["apps"])) = [] /\
+    n_watched (nrun evs (nstate0 ["apps"])) = [] /\ In (NDel (o_kind o) (o_ns o) (o_name o)) evs.
+Proof.
+  exists [NPut {| o_kind := KVS; o_ns := "apps"; o_name := "shop"; o_stamp := 1; o_ok := true; o_host := "" |}; NDrain;
+          NUnlabel "apps"; NDel KVS "apps" "shop"; NDrain],
+         {| o_kind := KVS; o_ns := "apps"; o_name := "shop"; o_stamp := 1; o_ok := true; o_host := "" |}.
+  repeat split; try (vm_compute; reflexivity). cbn. auto 6.
+Qed.
